@@ -230,6 +230,25 @@ func (t *target) probes(idx int) string {
 	if e != nil || !bytes.Equal(v, pl) || from.Port != pp {
 		return fmt.Sprintf("UDP datagram: Read returned %q from port %d, %v (sent %q from port %d)", v, from.Port, e, pl, pp)
 	}
+	// 4. a UDP datagram that arrives in three fragments (reassembly still works). A mutated
+	// frame may have left a fragment with the same identification behind, so up to three
+	// identifications are tried.
+	big := append(append([]byte(nil), pl...), bytes.Repeat([]byte{byte(n)}, 40)...)
+	whole := rfc.UDP{SrcPort: pp, DstPort: 5353, Payload: big}.Bytes4(t.c.P4, t.c.S4, true)
+	okFrag := false
+	for try := 0; try < 3 && !okFrag; try++ {
+		id := uint16(40000 + (n*7+try*131)%20000)
+		for _, c := range [][3]int{{0, 16, 1}, {16, 32, 1}, {32, len(whole), 0}} {
+			fr := rfc.IPv4{TTL: 64, Proto: rfc.ProtoUDP, ID: id, Src: t.c.P4, Dst: t.c.S4, Flags: uint8(c[2]), FragOff: uint16(c[0] / 8), Payload: whole[c[0]:c[1]]}
+			t.h.L.Inject(ipv4.ProtocolNumber, fr.Bytes(true), tcpip.LinkAddress(t.c.PMAC[:]))
+		}
+		rawpeer.Settle()
+		v, _, e = t.uep.Read(&from)
+		okFrag = e == nil && bytes.Equal(v, big) && from.Port == pp
+	}
+	if !okFrag {
+		return fmt.Sprintf("a UDP datagram of %d bytes sent in three fragments was not delivered (three identifications tried): Read returned %d bytes, %v", len(big), len(v), e)
+	}
 	return ""
 }
 
@@ -280,6 +299,34 @@ func vtChild(t *testing.T) {
 			os.Exit(run.Finish("", nil))
 		}
 		idxLog, _ := os.Create(filepath.Join(dir, tag+".index"))
+		if os.Getenv("VERIF_CONTRADICT") == "1" {
+			// megabytes of fragment sets that contradict themselves (two different "last"
+			// fragments), each under its own identification: whatever the reassembler does with
+			// them, it must give their memory back and go on serving
+			sets := fw.N(100, 400)
+			for i := 0; i < sets; i++ {
+				id := uint16(1000 + i)
+				size := 65000
+				if i%4 == 3 {
+					size = 1000 + 8*(i%100)
+				}
+				for _, c := range [][3]int{{0, 8, 1}, {32, size, 0}, {8, 8, 0}} {
+					fr := rfc.IPv4{TTL: 64, Proto: rfc.ProtoUDP, ID: id, Src: tg.c.P4, Dst: tg.c.S4, Flags: uint8(c[2]), FragOff: uint16(c[0] / 8), Payload: make([]byte, c[1])}
+					tg.h.L.Inject(ipv4.ProtocolNumber, fr.Bytes(true), tcpip.LinkAddress(tg.c.PMAC[:]))
+				}
+				if i%16 == 15 {
+					rawpeer.Settle()
+					if m := tg.probes(i); m != "" {
+						run.Violation("C07/not-serving", fmt.Sprintf("after %d contradictory fragment sets (about %d KiB) the stack no longer serves: %s", i+1, (i+1)*48), map[string]interface{}{"sets": i + 1})
+						break
+					}
+					run.Count("probe_rounds_passed", 1)
+				}
+			}
+			run.Count("contradictory_fragment_sets_injected", int64(sets))
+			run.Case(fw.Hash("contradict"), true)
+			os.Exit(run.Finish("", nil))
+		}
 		for b := lo; b < hi; b++ {
 			tg.establish(b)
 			var seqs [][]pkt
@@ -621,6 +668,8 @@ func TestC07(t *testing.T) {
 		wg.Add(1)
 		go worker(os.Getenv("VERIF_BIN_VT"), "vt", fmt.Sprintf("frag%d", c), 1000000+c, 1000000+c+1, false, []string{"VERIF_FRAGS=1"})
 	}
+	wg.Add(1)
+	go worker(os.Getenv("VERIF_BIN_VT"), "vt", "contradict", 2000000, 2000001, false, []string{"VERIF_CONTRADICT=1"})
 	wg.Wait()
 	for c := 0; c < 2; c++ {
 		wg.Add(1)
@@ -631,7 +680,7 @@ func TestC07(t *testing.T) {
 		go worker(os.Getenv("VERIF_BIN_RACE"), "race", fmt.Sprintf("race%d", c), fw.N(8, 200)*c, fw.N(8, 200)*(c+1), true, nil)
 	}
 	wg.Wait()
-	code := run.Finish("child processes host a real stack (listener, established connection, bound UDP socket, IPv4+IPv6+ARP); every batch of frames is written to disk before it is injected and the index of each frame is logged first, so a process death names the frame. Frames: valid ARP / echo / NDP / UDP / SYN with option soup / in- and near-window segments with all flag sets / fragments / ICMP errors quoting the stack's packets / IPv6 fragment headers, put through 1-3 structure-aware mutations (truncate anywhere, length/offset/flag bytes and 16-bit fields set to edge values, bit flips, splices, noise, wrong ethertype) plus pure noise of every length 0..128; exhaustive small scope: all IPv4 fragment pairs (and a subset of triples) over offsets {0,8,16,65528} x lengths {0,1,8,9,16} x MF. After each batch, in virtual time: one matching echo reply, a new TCP handshake accepted with its data readable, a UDP datagram delivered intact. Also: the fd-based Ethernet link over a socketpair in real time (runt frames 0..20 bytes; echo probe; the link's close callback), and the barrage from 4 goroutines under the race detector. distinct = batches",
+	code := run.Finish("child processes host a real stack (listener, established connection, bound UDP socket, IPv4+IPv6+ARP); every batch of frames is written to disk before it is injected and the index of each frame is logged first, so a process death names the frame. Frames: valid ARP / echo / NDP / UDP / SYN with option soup / in- and near-window segments with all flag sets / fragments / ICMP errors quoting the stack's packets / IPv6 fragment headers, put through 1-3 structure-aware mutations (truncate anywhere, length/offset/flag bytes and 16-bit fields set to edge values, bit flips, splices, noise, wrong ethertype) plus pure noise of every length 0..128; exhaustive small scope: all IPv4 fragment pairs (and a subset of triples) over offsets {0,8,16,65528} x lengths {0,1,8,9,16} x MF. One child receives megabytes of self-contradictory fragment sets. After each batch, in virtual time: one matching echo reply, a new TCP handshake accepted with its data readable, a UDP datagram delivered intact, and a UDP datagram delivered from three fragments. Also: the fd-based Ethernet link over a socketpair in real time (runt frames 0..20 bytes; echo probe; the link's close callback), and the barrage from 4 goroutines under the race detector. distinct = batches",
 		[]string{"a panic/fatal whose innermost non-runtime frame is under /repo is a violation keyed by that file; a watchdog expiry is inconclusive", "probes use fresh ports and drain queues first, so a legitimately reset or filled connection does not count against the stack"})
 	os.Exit(code)
 }
